@@ -134,7 +134,7 @@ def strip(rec):
 def check_c15(tier, replay):
     v = C.Verdict("C15", tier)
     work = C.fresh_dir(os.path.join(C.OUT, "work", "C15"))
-    fams = ["F1", "F3", "F4", "F6", "F7", "F8", "F8m", "F10", "F13", "F14", "F14L"] if tier == "quick" else ["F1", "F2x", "F3", "F4", "F4b", "F6", "F7", "F8", "F8m", "F10", "F11", "F13", "F14", "F14L", "FC2"]
+    fams = ["F1", "F3", "F4", "F6", "F7", "F8", "F8m", "F10", "F13", "F14", "F14L"] if tier == "quick" else ["F1", "F2x", "F3", "F4", "F4b", "F6", "F7", "F8", "F8m", "F10", "F11", "F13", "F14", "F14L"]
     if replay:
         rp = json.load(open(replay))["replay"]
         cases = os.path.join(work, "cases.ndjson")
@@ -146,11 +146,15 @@ def check_c15(tier, replay):
     sub = "grammar" if replay and json.load(open(replay))["replay"].get("pipeline") == "grammar15" else "sem"
     # reference: the default build; its observations are judged by the model as well
     base = {}
+    first_two = []
     t0 = time.time()
     paths, crashes = S.run_runner(C.build_runner(), sub, cases, work, [], shards=min(12, max(1, ncases)), label="def")
+    # (kept as compact strings: tens of thousands of parsed records do not fit in memory)
     for line in open(paths["def"]):
         r = json.loads(line)
-        base[r["rid"]] = r
+        base[r["rid"]] = json.dumps(strip(r) if sub == "sem" else {"res": r["res"], "noopt": r["noopt"]}, sort_keys=True)
+        if len(first_two) < 2:
+            first_two.append(r)
     C.log("default build: %d cases in %.1fs" % (ncases, time.time() - t0))
     if crashes:
         raise C.ToolError("the default build died on %s" % crashes[:2])
@@ -176,11 +180,12 @@ def check_c15(tier, replay):
         for line in open(vp[var]):
             r = json.loads(line)
             n += 1
-            b = base.get(r["rid"])
+            bs = base.get(r["rid"])
             cov["evaluations"] += sum(len(h) + 2 for h in r.get("hays", [])) or 24
-            same = (strip(r) == strip(b)) if sub == "sem" else (r["res"] == b["res"] and r["noopt"] == b["noopt"])
+            same = json.dumps(strip(r) if sub == "sem" else {"res": r["res"], "noopt": r["noopt"]}, sort_keys=True) == bs
             if not same:
                 nd += 1
+                b = json.loads(bs) if bs else {}
                 if nd <= 8:
                     what = describe(r, b) if sub == "sem" else "compile results %s/%s vs default %s/%s" % (r["res"], r["noopt"], b["res"], b["noopt"])
                     case = GR.read_line(cases, r["rid"])
@@ -218,7 +223,7 @@ def check_c15(tier, replay):
                                 {"pipeline": "grammar15", "case": GR.read_line(path, c["case"]), "variant": var})
                 os.remove(paths["g" + var])
                 cov["configurations"][VARIANT_DESC[var]]["grammar_" + fam] = meta["strings"]
-    some = list(base.values())[:2]
+    some = first_two
     for r in some:
         if "pats" in r:
             cov["samples"].append({"pattern": r["pats"], "flags": r["flags"], "default_obs_first_haystack": r["obs"][0] if r.get("obs") else None})
